@@ -102,7 +102,8 @@ func (keeper Keeper) GetCustomMsgQuorum(ctx context.Context, defaultQuorum strin
 func getProposalMsgType(proposal v1.Proposal) string {
 	message := proposal.GetMessages()
 	for _, msg := range message {
-		return sdk.MsgTypeURL(msg)
+		// msg is the packed Any: its type URL names the message it carries
+		return msg.TypeUrl
 	}
 	return ""
 }
